@@ -15,7 +15,9 @@ ANNOS = [None, None, None, "int", "List[int]", "Optional[str]", '"Helper"', "Use
 WHERE = ["top", "method", "classmethod", "staticmethod", "property", "inner", "deep", "async", "gen", "asyncmethod", "genmethod",
          "subclassmethod", "substaticmethod", "subproperty", "typescoro"]
 NAMES = ["a", "b", "cc", "data", "x1", "q", "long_parameter_name_number_one", "another_rather_long_parameter_name",
-         "yet_another_very_long_parameter_name_to_force_wrapping", "value_with_a_name_that_is_forty_chars_long"]
+         "yet_another_very_long_parameter_name_to_force_wrapping", "value_with_a_name_that_is_forty_chars_long",
+         # names that begin like a module the stub strips from annotations (`typing.`, `fxh.`)
+         "typing_x", "fxh_item"]
 FNAMES = ["f", "g", "compute_something_rather_long_named_function", "h",
           # long enough that `def name() -> ret` alone exceeds the 120 columns (the wrapped layout of an EMPTY parameter list)
           "a_function_name_that_is_long_enough_that_its_definition_line_does_not_fit_in_one_hundred_and_twenty_columns_even_without_parameters"]
@@ -103,13 +105,14 @@ def sig(f, recv):
     if pos:
         parts += [fmt(p) for p in pos] + ["/"]
     parts += [fmt(p) for p in pk]
+    # functions whose return is annotated in the source also annotate their variadic parameters
     if f["varargs"]:
-        parts.append("*" + f["varargs"])
+        parts.append("*" + f["varargs"] + (": int" if f["ret_anno"] else ""))
     elif kw:
         parts.append("*")
     parts += [fmt(p) for p in kw]
     if f["varkw"]:
-        parts.append("**" + f["varkw"])
+        parts.append("**" + f["varkw"] + (": str" if f["ret_anno"] else ""))
     return ", ".join(parts)
 
 
